@@ -222,7 +222,7 @@ def py_step(op):
 INTERESTING = [
     "\0", REPL, "\\", "\r", "\n", " ", ")", "=", "(", "B", "3", "a", "f", "g", "A", "F", "0", "9", "/", ":", "n", "r",
     "\t", "\x7f", "\x80", "\xa0", "\xe9", "\xdf", "\u07ff", "\u0800", "\u20ac", "\u2028", "\ufeff", "\ufffc", "\ufffe",
-    "\uffff", "\U00010000", "\U0001F600", "\U0010FFFF", "x", "-", "\"",
+    "\uffff", "\U00010000", "\U0001F600", "\U0010FFFF", "x", "-", "\"", "+", "_", "G", "@", "`", "'", ",", ".", "e", "E", "o", "X", "#",
 ]
 MB2 = ["\xe9", "\x80", "\u07ff"]
 MB3 = ["\u20ac", "\u0800", REPL]
@@ -349,6 +349,15 @@ def lines_for_c13(rng, n):
             cs = list(bl + term)
             for i in range(len(cs)):
                 add(_line_op("".join(cs[:i] + cs[i + 1:])))
+    # every ASCII character (and a few non-ASCII ones) substituted at every position of the hash field, in both forms:
+    # exactly [0-9a-f] may be accepted (number syntax such as a sign, `_`, `0x`, whitespace or upper case must not be)
+    for bl in (bases[0], bases[1]):
+        i0 = bl.index(TAG_SEP) + len(TAG_SEP) if bl.startswith(TAG_PREFIX) else 0
+        cs = list(bl)
+        for i in range(i0, i0 + 64):
+            for c in [chr(k) for k in range(128)] + ["\xe9", "\u0661", "\uff11", "\uff41"]:
+                if c != cs[i]:
+                    add(_line_op("".join(cs[:i] + [c] + cs[i + 1:])))
     for p in BASE_PATHS:
         for form in ("plain", "tag"):
             add("P fmt %s %s" % (p.hex(), form))
